@@ -112,6 +112,9 @@ func countCalls(n ast.Node, name string, pred func(*ast.CallExpr) bool) int {
 func init() {
 	extractors = append(extractors, func(o *out) {
 		b := o.w("C09.lean")
+		// own sub-namespace: SA.Gen.C09.* (other properties extract similarly named facts)
+		fmt.Fprintf(b, "namespace C09\n\n")
+		defer fmt.Fprintf(b, "\nend C09\n")
 
 		// --- codecs: code letter and exact ratio, in FromCode registry order
 		type cd struct{ file, recv, name string }
